@@ -242,6 +242,13 @@ class ZoneFn:
             return self.term_local(pl['l'])
         # tuple field of a checked operation
         ps = pl['p']
+        if all(p['k'] == 'deref' for p in ps):
+            return self.term_local(pl['l'])       # a reference to an integer: same value
+        # captured variable of a closure: (*(_1.k)) or (_1.k)
+        if self.body.kind == 'Closure' and pl['l'] == 1 and ps and ps[0]['k'] in ('field', 'deref'):
+            fs = [p for p in ps if p['k'] == 'field']
+            if len(fs) == 1 and all(p['k'] in ('field', 'deref') for p in ps) and fs[0]['n'].isdigit():
+                return ('cap%s' % fs[0]['n'], 0)
         if len(ps) == 1 and ps[0]['k'] == 'field' and ps[0]['n'] == '0':
             d = self.single_def(pl['l'])
             if d and d[0] == 'assign' and d[2]['rv']['k'] == 'binop':
@@ -323,6 +330,8 @@ class ZoneFn:
                         res = self._binop_term(l, rv, bi)
                     elif rv['k'] == 'unop' and rv['op'] == 'PtrMetadata' and rv['a']['k'] in ('copy', 'move'):
                         res = self.len_of_place(rv['a']['pl'], bi)
+                    elif rv['k'] == 'ref' and not rv['pl'].get('p') and ty.lstrip('&').strip() in ('usize', 'u64', 'u32', 'u16', 'u8'):
+                        res = self.term_local(rv['pl']['l'])
                     elif rv['k'] == 'cast' and rv['ck'] == 'IntToInt':
                         src = self.term_op(rv['op'])
                         if src is not None and rv['ty'] in ('usize', 'u64') :
